@@ -292,38 +292,54 @@ Section Agreement.
         destruct (atom_op a); try discriminate. apply andb_prop in DA. destruct DA as [DA _].
         destruct (l_text (atom_lit a)); [discriminate | discriminate]. }
       destruct (all_same_spec _ DS) as [x HX].
-      assert (XL : forall a, In a (atoms m) -> is_extra (atom_var a) = true -> l_text (atom_lit a) = x).
-      { intros a Ha X. apply HX. unfold extra_lits. apply in_map_iff. exists a. split; [reflexivity|].
-        apply filter_In. split; assumption. }
       assert (CE : C = match extras with [] => [[]] | _ => extras end) by (rewrite HC; apply contexts_normalised; exact DE).
-      assert (INC : forall e a, In e C -> In a (atoms m) -> is_extra (atom_var a) = true ->
-                    bytes_eqb e x = true -> existsb (bytes_eqb x) extras = true).
+      (* an extra atom whose name equals the context is requested *)
+      assert (LITIN : forall e a, In e C -> In a (atoms m) -> is_extra (atom_var a) = true ->
+                    bytes_eqb e (l_text (atom_lit a)) = true -> existsb (bytes_eqb (l_text (atom_lit a))) extras = true).
       { intros e a He Ha X B. apply bytes_eqb_eq in B. subst e. apply existsb_bytes_in.
         rewrite CE in He. destruct extras as [|e0 E0].
-        - destruct He as [He|[]]. exfalso. apply (XN a Ha X). rewrite (XL a Ha X). symmetry. exact He.
+        - destruct He as [He|[]]. exfalso. apply (XN a Ha X). symmetry. exact He.
         - exact He. }
+      (* a requested name of the marker is x *)
+      assert (REQ : forall a, In a (atoms m) -> is_extra (atom_var a) = true ->
+                    existsb (bytes_eqb (l_text (atom_lit a))) extras = true -> l_text (atom_lit a) = x).
+      { intros a Ha X R. apply HX. unfold requested_lits. apply filter_In. split; [|exact R].
+        unfold extra_lits. apply in_map_iff. exists a. split; [reflexivity|]. apply filter_In. split; assumption. }
       (* pointwise: packaging's value for any context implies Go's *)
       assert (LE : forall e, In e C -> beval (sval e) m = true -> beval gval m = true).
       { intros e He. apply beval_mono. intros a Ha Sv. specialize (AT a Ha e). unfold gval.
         destruct (is_extra (atom_var a)) eqn:X.
-        - rewrite (XL a Ha X) in *. rewrite AT in Sv. exact (INC e a He Ha X Sv).
+        - rewrite AT in Sv. exact (LITIN e a He Ha X Sv).
         - unfold gval in AT. rewrite X in AT. rewrite <- AT. exact Sv. }
       (* a context on which the two valuations coincide *)
       assert (EQ : exists e0, In e0 C /\ beval (sval e0) m = beval gval m).
-      { destruct (existsb (bytes_eqb x) extras) eqn:M.
-        - exists x. split.
-          + apply existsb_bytes_in in M. rewrite CE. destruct extras; [destruct M | exact M].
-          + apply beval_ext. intros a Ha. specialize (AT a Ha x). unfold gval.
-            destruct (is_extra (atom_var a)) eqn:X.
-            * rewrite (XL a Ha X) in *. rewrite AT, M. apply bytes_eqb_refl.
-            * unfold gval in AT. rewrite X in AT. exact AT.
-        - destruct C as [|e0 C'] eqn:EC; [congruence|]. exists e0. split; [left; reflexivity|].
+      { destruct (requested_lits extras m) as [|x0 R0] eqn:RL.
+        - (* no name of the marker is requested: every context makes every extra atom false *)
+          destruct C as [|e0 C'] eqn:EC; [congruence|]. exists e0. split; [left; reflexivity|].
           apply beval_ext. intros a Ha. specialize (AT a Ha e0). unfold gval.
-          destruct (is_extra (atom_var a)) eqn:X.
-          + rewrite (XL a Ha X) in *. rewrite AT, M.
-            destruct (bytes_eqb e0 x) eqn:B; [|reflexivity].
-            pose proof (INC e0 a (or_introl eq_refl) Ha X B) as K. congruence.
-          + unfold gval in AT. rewrite X in AT. exact AT. }
+          destruct (is_extra (atom_var a)) eqn:X; [|unfold gval in AT; rewrite X in AT; exact AT].
+          rewrite AT.
+          assert (NR : existsb (bytes_eqb (l_text (atom_lit a))) extras = false).
+          { destruct (existsb (bytes_eqb (l_text (atom_lit a))) extras) eqn:R; [|reflexivity]. exfalso.
+            assert (In (l_text (atom_lit a)) (requested_lits extras m)).
+            { unfold requested_lits. apply filter_In. split; [|exact R]. unfold extra_lits. apply in_map_iff.
+              exists a. split; [reflexivity|]. apply filter_In. split; assumption. }
+            rewrite RL in H. destruct H. }
+          rewrite NR. destruct (bytes_eqb e0 (l_text (atom_lit a))) eqn:B; [|reflexivity].
+          pose proof (LITIN e0 a (or_introl eq_refl) Ha X B) as K. congruence.
+        - (* exactly one requested name x0: the context x0 gives Go's valuation *)
+          assert (X0 : x0 = x) by (apply HX; left; reflexivity).
+          assert (RX : existsb (bytes_eqb x0) extras = true).
+          { assert (I0 : In x0 (requested_lits extras m)) by (rewrite RL; left; reflexivity).
+            unfold requested_lits in I0. apply filter_In in I0. exact (proj2 I0). }
+          exists x0. split.
+          + apply existsb_bytes_in in RX. rewrite CE. destruct extras; [destruct RX | exact RX].
+          + apply beval_ext. intros a Ha. specialize (AT a Ha x0). unfold gval.
+            destruct (is_extra (atom_var a)) eqn:X; [|unfold gval in AT; rewrite X in AT; exact AT].
+            rewrite AT. destruct (existsb (bytes_eqb (l_text (atom_lit a))) extras) eqn:R.
+            * rewrite (REQ a Ha X R), X0. apply bytes_eqb_refl.
+            * destruct (bytes_eqb x0 (l_text (atom_lit a))) eqn:B; [|reflexivity].
+              apply bytes_eqb_eq in B. rewrite <- B in R. congruence. }
       destruct (beval gval m) eqn:BG.
       + destruct EQ as [e0 [He0 E0]]. symmetry. apply existsb_exists. exists e0. split; assumption.
       + symmetry. apply not_true_is_false. intros H. apply existsb_exists in H. destruct H as [e [He B]].
